@@ -145,8 +145,12 @@ def per_row(c, rows):
         o = ll.get_value_and_derivatives(betas=beta_values(c), database=d, gradient=True, hessian=True, bhhh=True,
                                          aggregation=False, prepare_ids=True)
         n = len(rows)
+        # the same evaluator, aggregated (always 4 threads: evaluateExpressions.cc)
+        a = formulas(c)['log_like'].get_value_and_derivatives(betas=beta_values(c), database=Database('c04a', frame(c, rows)),
+                                                              gradient=True, hessian=True, bhhh=True, aggregation=True, prepare_ids=True)
         return {'f': ratios(o.functions), 'g': [ratios(o.gradients[i]) for i in range(n)],
-                'h': [ratios(o.hessians[i]) for i in range(n)], 'b': [ratios(o.bhhhs[i]) for i in range(n)]}
+                'h': [ratios(o.hessians[i]) for i in range(n)], 'b': [ratios(o.bhhhs[i]) for i in range(n)],
+                'agg': derivs(a)}
     return part(go)
 
 
